@@ -15,3 +15,4 @@ func RaceErrors() int { return 0 }
 
 func raceAcquire(p unsafe.Pointer) {}
 func raceRelease(p unsafe.Pointer) {}
+func raceReleaseMerge(p unsafe.Pointer) {}
